@@ -13,6 +13,7 @@ ops
 An outcome is ["ok", class-or-"dict"-or-null, canonical JSON restricted to the input's keys]
 or ["exc", exception class, class the error names, property the error names] or ["none"].
 """
+import functools
 import inspect
 import io
 import json
@@ -27,6 +28,12 @@ from stix2.base import _STIXBase
 from stix2.datastore.filters import Filter
 from stix2.datastore.filesystem import FileSystemSink, FileSystemSource, FileSystemStore
 from stix2.datastore.memory import MemorySink, MemorySource, MemoryStore
+
+WORKBENCH = "workbench" in sys.argv[1:]
+if WORKBENCH:
+    # importing the workbench replaces the 2.1 SDO classes of the registry by factory functions:
+    # done only in a worker of its own
+    import stix2.workbench as wb
 
 TMP = tempfile.mkdtemp(prefix="c14_", dir=os.getcwd())
 _n = [0]
@@ -58,8 +65,12 @@ def as_json(o):
 
 
 def restrict(js, inp):
+    """keep, at every depth, only the members the input had: what the library adds by itself
+    (defaulted timestamps, generated ids of embedded observables) is not part of the comparison"""
     if isinstance(inp, dict) and isinstance(js, dict):
-        return {k: js.get(k, "<absent>") for k in inp if k != "_valid_refs"}
+        return {k: restrict(js[k], inp[k]) if k in js else "<absent>" for k in inp if k != "_valid_refs"}
+    if isinstance(inp, list) and isinstance(js, list) and len(inp) == len(js):
+        return [restrict(a, b) for a, b in zip(js, inp)]
     return js
 
 
@@ -68,8 +79,11 @@ def versions_of(k):
     out = []
     for ver, cats in registry.STIX2_OBJ_MAPS.items():
         for cat in ("objects", "observables"):
-            if any(c is k for c in cats.get(cat, {}).values()):
-                out.append(ver)
+            for c in cats.get(cat, {}).values():
+                if isinstance(c, functools.partial) and c.args and isinstance(c.args[0], type):
+                    c = c.args[0]          # workbench factory: partial(_environ.create, wrapped class)
+                if c is k or (WORKBENCH and isinstance(c, type) and isinstance(k, type) and c in k.__mro__[:2]):
+                    out.append(ver)
     return sorted(set(out))
 
 
@@ -177,9 +191,20 @@ def read_sink_dir(root, inp):
 
 
 def mem_saved(sink, inp):
-    """A MemorySink has no read side (save_to_file re-validates what it holds inside a new
-    Bundle, so it is not an observation of what was accepted): acceptance only."""
-    return ["ok", None, None, None]
+    """A MemorySink has no read method (save_to_file re-validates what it holds inside a new Bundle, so
+    it is not an observation of what was accepted); its class docstring documents the attribute
+    `_data` (id -> object, or -> family of versions): read the one object through it."""
+    data = getattr(sink, "_data", None)
+    oid = inp.get("id") if isinstance(inp, dict) else None
+    if not isinstance(data, dict) or oid not in data:
+        return ["ok", None, None, None]
+    o = data[oid]
+    vs = getattr(o, "all_versions", None)
+    if isinstance(vs, dict):
+        if len(vs) != 1:
+            return ["many", len(vs)]
+        o = list(vs.values())[0]
+    return ok(o, inp)
 
 
 def run_entry(name, cfg, d):
@@ -199,6 +224,15 @@ def run_entry(name, cfg, d):
     if name == "parsing.parse_observable":
         k = kw(cfg, ("allow_custom", "interoperability", "version"))
         return guard(lambda: ok(stix2.parse_observable(d, **k), d), d), ["parse_observable", own_allow(cfg, stix2.parse_observable), io_own]
+
+    if name == "workbench.parse":
+        k = kw(cfg, ("allow_custom", "interoperability", "version"))
+        return guard(lambda: ok(wb.parse(d, **k), d), d), ["parse", own_allow(cfg, stix2.parse), io_own]
+    if name == "workbench.save":
+        def f():
+            wb.save(d, **vk)
+            return single(wb.get(oid), d)
+        return guard(f, d), ["parse", own_allow({}, MemoryStore.__init__), False]
 
     wrap = cfg.get("wrap")          # hand the object over inside a bundle dict / a list
 
